@@ -72,4 +72,5 @@ def main(tier):
     chk.run("R-INFGUARD", BR.infguard, cx.repo, floor=6)
     chk.run("R-REFHEAD", RR.refhead, cx.repo, floor=1)
     chk.run("R-ATTRBACKEND", V.attrbackend, cx.repo, floor=6)
+    chk.run("R-LEAFCHECK", SY.leafcheck, cx.repo, floor=2)
     return chk.finish()
